@@ -28,15 +28,18 @@ For whoever builds C02 / C06 on top of this reader (all readers are `Codec.R α 
 * `fp.seek(q)` is "return position `q`": `LayerInfo.dec` and `LayerAndMask.dec` return `endPos` whatever the body
   consumed (`assert fp.tell() <= end_pos` → `.assertionError` in `LayerInfo.dec` only); `GlobalLayerMaskInfo.dec`
   returns its *start* position for a block shorter than 13 bytes (the rewind); `TaggedBlock.dec` returns `none` with the
-  cursor restored on a bad signature. A position may exceed `data.length` (BytesIO semantics: later reads see nothing).
+  cursor restored on a bad signature. A position may exceed `data.length` (BytesIO semantics: later reads see nothing),
+  but not `sys.maxsize`: a declared size or end position of `2^63` and more (8-byte fields of a PSB) is `.overflowError`
+  (`Codec.overflows`), as `fp.read` / `fp.seek` raise OverflowError.
 * `with io.BytesIO(block)` is a nested run `reader block 0` whose final position is dropped (`resourcesDec`, `maskDec`,
   `BlendingRanges.dec`, `LayerRecord.dec` → `extraDec`, `GlobalLayerMaskInfo.dec`).
-* the gates: `LayerAndMask.bodyDec` (`isReadable 17 ∧ p < endPos`, then `isReadable 1`), `taggedCond endPos`
+* the gates: `LayerAndMask.bodyDec` (`p + 4 ≤ endPos`: the section, not the stream, decides), `taggedCond endPos`
   (`isReadable 8 ∧ p < endPos`), `BlendingRanges.dec` (`isReadable 8`), `resourcesDec` (`isReadable 4`),
   `MaskData.bodyDec length` (`length ≥ 36`), `ChannelData.dec ciLength` (`readPy (ciLength - 2)`).
 * validators/converters are `if … ∈ G.table then … else .error .valueError` at the place the constructor runs.
 * laws: `Lemmas/Codec.lean` (`At d p bs`, `…_step` lemmas), `Lemmas/CodecPsd{1,2,3}.lean` (`X.dec_at` / `X.dec_step`).
-  `dec` can return values outside `WF` (exactly the (F) clauses below): C02's `dec_wf` is not proved here.
+  C02 (`Lemmas/Lenient*.lean`, `Props/C02.lean`) proves that everything `PSD.read` returns is `WF` up to one clause of
+  `MaskData.WF` (a 35-byte mask block holding both feathers), after the reader repairs of this round.
 
 Core Lean only.
 -/
@@ -785,12 +788,20 @@ def LayerInfo.bodyDec (version : Nat) : R LayerInfo := fun d p => do
   let (channels, p) ← channelImageDec records d p
   .ok (⟨count, some records, some channels⟩, p)
 
+/-- `if self.layer_count == 0: self = LayerInfo()`: a body that declares no layers is kept in the form
+the writer's empty section is read back in -/
+def LayerInfo.normCount0 (li : LayerInfo) : LayerInfo := if li.layerCount = 0 then ⟨0, none, none⟩ else li
+
 /-- `LayerInfo.read`: length, body, `assert fp.tell() <= end_pos`, `fp.seek(end_pos)` -/
 def LayerInfo.dec (version : Nat) : R LayerInfo := fun d p => do
   let (length, p) ← readU (secW version) d p
   let endPos := p + length
-  let (li, p) ← (if length = 0 then .ok (⟨0, none, none⟩, p) else LayerInfo.bodyDec version d p)
-  if p ≤ endPos then .ok (li, endPos) else .error .assertionError
+  let (li, p) ← (if length = 0 then .ok (⟨0, none, none⟩, p) else
+    match LayerInfo.bodyDec version d p with
+    | .ok (li, p) => .ok (li.normCount0, p)
+    | .error e => .error e)
+  if p ≤ endPos then (if overflows endPos d then .error .overflowError else .ok (li, endPos))   -- `fp.seek(end_pos)`
+  else .error .assertionError
 
 /-- per record: as many channel data as channel infos -/
 def shapesAgree : List LayerRecord → List (List ChannelData) → Prop
@@ -932,8 +943,7 @@ def LayerAndMask.Fits (version pad : Nat) (x : LayerAndMask) : Prop :=
 instance (version pad : Nat) (x : LayerAndMask) : Decidable (x.Fits version pad) := by
   unfold LayerAndMask.Fits; exact inferInstance
 
-/-- `follow` = number of bytes after the section in the stream (the image data: ≥ 2) -/
-def LayerAndMask.WF (version pad follow : Nat) (x : LayerAndMask) : Prop :=
+def LayerAndMask.WF (version pad : Nat) (x : LayerAndMask) : Prop :=
   x.Fits version pad ∧                                                   -- (ii)
   match x.layerInfo with
   | none =>
@@ -944,33 +954,31 @@ def LayerAndMask.WF (version pad follow : Nat) (x : LayerAndMask) : Prop :=
       ∧ optProp GlobalLayerMaskInfo.WF x.globalMask
       ∧ (match x.taggedBlocks with
          | some ts => taggedBlocksWF version ts
-         | none => False)          -- (F) `is_readable(fp)` sees the image data: `None` is re-read as an empty dict
+         | none => False)          -- (F) a section with a layer info is read with a `TaggedBlocks` (possibly empty), never `None`
       ∧ (x.globalMask = none → x.taggedBlocks = some [])
                                    -- (iii) the global mask section precedes the tagged blocks
-      ∧ (match x.globalMask with
-         | some g => g.overlayColor = none →
-             13 ≤ (optT' (taggedBlocksT version 4) x.taggedBlocks).length + follow
-         | none => True)           -- (F) the `is_readable(fp, 17)` gate looks past the section end
 
-instance (version pad follow : Nat) (x : LayerAndMask) : Decidable (x.WF version pad follow) := by
+instance (version pad : Nat) (x : LayerAndMask) : Decidable (x.WF version pad) := by
   unfold LayerAndMask.WF
   cases x.layerInfo <;> cases x.globalMask <;> cases x.taggedBlocks <;> simp only <;> exact inferInstance
 
-/-- `LayerAndMaskInformation._read_body(fp, end_pos, …)` on the main stream -/
+/-- `LayerAndMaskInformation._read_body(fp, end_pos, …)` on the main stream: the global layer mask info
+and, behind it, the tagged blocks are read when the *section* has room for the length field of the former
+(`fp.tell() + 4 <= end_pos`); otherwise `None` and an empty `TaggedBlocks()` -/
 def LayerAndMask.bodyDec (version endPos : Nat) : R LayerAndMask := fun d p => do
   let (li, p) ← LayerInfo.dec version d p
-  let (glm, p) ← (if isReadable 17 d p && decide (p < endPos) then optItem GlobalLayerMaskInfo.dec d p
-                   else .ok (none, p))
-  let (tbs, p) ← (if isReadable 1 d p then optItem (taggedBlocksDec version 4 (some endPos)) d p
-                   else .ok (none, p))
-  .ok (⟨some li, glm, tbs⟩, p)
+  if p + 4 ≤ endPos then
+    let (glm, p) ← GlobalLayerMaskInfo.dec d p
+    let (tbs, p) ← taggedBlocksDec version 4 (some endPos) d p
+    .ok (⟨some li, some glm, some tbs⟩, p)
+  else .ok (⟨some li, none, some []⟩, p)
 
 /-- `LayerAndMaskInformation.read`: whatever the body did, `fp.seek(end_pos)` -/
 def LayerAndMask.dec (version : Nat) : R LayerAndMask := fun d p => do
   let (length, p) ← readU (secW version) d p
   let endPos := p + length
   let (x, _) ← (if length = 0 then .ok (⟨none, none, none⟩, p) else LayerAndMask.bodyDec version endPos d p)
-  .ok (x, endPos)
+  if overflows endPos d then .error .overflowError else .ok (x, endPos)                       -- `fp.seek(end_pos)`
 
 /-! ## ImageData -/
 
@@ -1055,7 +1063,7 @@ def PSD.encW (pad : Nat) (x : PSD) : Except Err W :=
 
 def PSD.WF (pad : Nat) (x : PSD) : Prop :=
   x.header.WF ∧ FitsU 4 x.colorModeData.length ∧ resourcesWF x.resources ∧
-  x.layerAndMask.WF x.header.version pad (2 + x.imageData.data.length) ∧ x.imageData.WF
+  x.layerAndMask.WF x.header.version pad ∧ x.imageData.WF
 
 instance (pad : Nat) (x : PSD) : Decidable (x.WF pad) := by unfold PSD.WF Header.WF; exact inferInstance
 
